@@ -52,7 +52,7 @@ class Nonterminating(Exception):
 class time_limit:
     """A corrupted ring / heap can make the real class loop for ever: bound every run of the implementation."""
 
-    def __init__(self, seconds=2.0):
+    def __init__(self, seconds=10.0):   # CPU seconds (ITIMER_VIRTUAL); healthy histories need milliseconds
         self.seconds = seconds
 
     def _fire(self, signum, frame):
@@ -79,7 +79,14 @@ def report(ctx, container, what_fn):
     n = ctx.hist.get(container + "_violating_histories", 0)
     ctx.count(container + "_violating_histories")
     if n < MAX_REPORTS:
-        what, replay, klass = what_fn()
+        res = what_fn()
+        if res is None or str(res[0]).endswith(": no difference"):
+            # the failure did not reproduce when the history was run again (a limit fired on a
+            # loaded machine): recorded, never reported
+            ctx.count(container + "_transient_not_reproduced")
+            ctx.hist[container + "_violating_histories"] -= 1
+            return
+        what, replay, klass = res
         ctx.violation(what, replay, klass=klass)
 
 
